@@ -619,6 +619,19 @@ func (e C11) Execute(plan interface{}, c *core.Ctx) *core.Verdict {
 		if w != nil {
 			return core.Fail("C11.writer_with_error", "Encrypt returned an error and a writer")
 		}
+		// a refusal must leave nothing behind: the next encryption in the process, to one ordinary recipient, works
+		d2 := seam.NewDisk(nil, nil)
+		restore2 := seam.NewTape(p.Tape + 7).Install()
+		w2, err2 := age.Encrypt(d2, world.Recipient(world.Key{T: "x", K: 0}))
+		if err2 == nil {
+			w2.Write([]byte("after the refusal"))
+			err2 = w2.Close()
+		}
+		restore2()
+		res2 := lib.Decrypt(seam.NewSource(d2.Data, seam.Delivery{Mode: "whole"}, nil, nil).Reader(), false, []age.Identity{world.Identity(world.Key{T: "x", K: 0})}, lib.ReadSched{Mode: "all"}, nil)
+		if err2 != nil || !res2.Clean() || string(res2.Released) != "after the refusal" {
+			return core.Fail("C11.poisoned_next", "after Encrypt refused the list %s, an encryption to one X25519 recipient gives %v / %s", skeleton, err2, res2.ErrText())
+		}
 		return nil
 	}
 	if !expectOK && !ambiguous {
